@@ -1081,4 +1081,268 @@ theorem mem_specMatches (v : Pe.View) (pat : List Atom) (lo hi p : Nat) :
   unfold specMatches
   rw [List.mem_filter, mem_candidates]
 
+/-! ### `next` does not depend on the save array it is given
+
+For an interpreter whose verdict does not depend on the save array (`Interp.Indep`: patterns without
+`Check` / `Pir`), two runs of a search that differ only in the save array report the same position
+and leave the same `Matches` state.  This is what relates the second `next` of `finds` (run on
+`&mut save[..0]`) to the second `next` of a scan loop (run on the caller's array). -/
+
+/-- the interpreter returns normally and its verdict is a function of the position -/
+def Interp.Indep (ex : Interp) : Prop :=
+  ∀ c s1 s2, ∃ b t1 t2, ex c s1 = .ok (b, t1) ∧ ex c s2 = .ok (b, t2)
+
+/-- two results that differ at most in the save array -/
+def Res.Agree (r1 r2 : Res) : Prop := r1.found = r2.found ∧ r1.pos = r2.pos ∧ r1.m = r2.m
+
+theorem bind_eq_ok {α β} {x : Out α} {f : α → Out β} {r : β} (h : x.bind f = .ok r) :
+    ∃ a, x = .ok a ∧ f a = .ok r := by
+  cases x with
+  | ok a => exact ⟨a, rfl, h⟩
+  | err e => cases h
+  | panic s => cases h
+  | ub s => cases h
+  | diverge => cases h
+
+theorem strat0Loop_agree {ex : Interp} (hI : ex.Indep) (stop : Nat) :
+    ∀ k (m : MSt) s1 s2 r1 r2, strat0Loop ex stop k m s1 = .ok r1 → strat0Loop ex stop k m s2 = .ok r2 →
+      r1.Agree r2 := by
+  intro k
+  induction k with
+  | zero =>
+    intro m s1 s2 r1 r2 h1 h2
+    simp only [strat0Loop] at h1 h2
+    by_cases hc : m.start < stop
+    · rw [if_pos hc] at h1; cases h1
+    · rw [if_neg hc] at h1 h2; cases h1; cases h2; exact ⟨rfl, rfl, rfl⟩
+  | succ k ih =>
+    intro m s1 s2 r1 r2 h1 h2
+    simp only [strat0Loop] at h1 h2
+    by_cases hc : m.start < stop
+    · rw [if_pos hc] at h1 h2
+      obtain ⟨a1, ha1, h1⟩ := bind_eq_ok h1
+      obtain ⟨a2, ha2, h2⟩ := bind_eq_ok h2
+      rw [ha1] at ha2; cases ha2
+      obtain ⟨p1, hp1, h1⟩ := bind_eq_ok h1
+      obtain ⟨p2, hp2, h2⟩ := bind_eq_ok h2
+      obtain ⟨b, t1, t2, e1, e2⟩ := hI m.start s1 s2
+      rw [e1] at hp1; rw [e2] at hp2; cases hp1; cases hp2
+      cases b with
+      | true => rw [if_pos rfl] at h1 h2; cases h1; cases h2; exact ⟨rfl, rfl, rfl⟩
+      | false =>
+        rw [if_neg (by simp)] at h1 h2
+        exact ih _ _ _ _ _ h1 h2
+    · rw [if_neg hc] at h1 h2; cases h1; cases h2; exact ⟨rfl, rfl, rfl⟩
+
+theorem strat1Loop_agree {ex : Interp} (hI : ex.Indep) (bytes : Bytes) (off len byte : Nat) (m : MSt) :
+    ∀ k i hits s1 s2 r1 r2, strat1Loop ex bytes off len byte m k i hits s1 = .ok r1 →
+      strat1Loop ex bytes off len byte m k i hits s2 = .ok r2 → r1.Agree r2 := by
+  intro k
+  induction k with
+  | zero =>
+    intro i hits s1 s2 r1 r2 h1 h2
+    simp only [strat1Loop] at h1 h2
+    obtain ⟨a1, ha1, h1⟩ := bind_eq_ok h1
+    obtain ⟨a2, ha2, h2⟩ := bind_eq_ok h2
+    rw [ha1] at ha2; cases ha2
+    cases h1; cases h2; exact ⟨rfl, rfl, rfl⟩
+  | succ k ih =>
+    intro i hits s1 s2 r1 r2 h1 h2
+    simp only [strat1Loop] at h1 h2
+    by_cases hb : byteAt bytes (off + i) = byte
+    · rw [if_pos hb] at h1 h2
+      obtain ⟨a1, ha1, h1⟩ := bind_eq_ok h1
+      obtain ⟨a2, ha2, h2⟩ := bind_eq_ok h2
+      rw [ha1] at ha2; cases ha2
+      obtain ⟨p1, hp1, h1⟩ := bind_eq_ok h1
+      obtain ⟨p2, hp2, h2⟩ := bind_eq_ok h2
+      obtain ⟨b, t1, t2, e1, e2⟩ := hI a1 s1 s2
+      rw [e1] at hp1; rw [e2] at hp2; cases hp1; cases hp2
+      cases b with
+      | true =>
+        rw [if_pos rfl] at h1 h2
+        obtain ⟨c1, hc1, h1⟩ := bind_eq_ok h1
+        obtain ⟨c2, hc2, h2⟩ := bind_eq_ok h2
+        rw [hc1] at hc2; cases hc2
+        cases h1; cases h2; exact ⟨rfl, rfl, rfl⟩
+      | false =>
+        rw [if_neg (by simp)] at h1 h2
+        exact ih _ _ _ _ _ _ h1 h2
+    · rw [if_neg hb] at h1 h2
+      exact ih _ _ _ _ _ _ h1 h2
+
+theorem strat2Loop_agree {ex : Interp} (hI : ex.Indep) (bytes : Bytes) (qs : List Nat) (J : Array Nat)
+    (off len : Nat) (m : MSt) :
+    ∀ fuel i hits s1 s2 r1 r2, strat2Loop ex bytes qs J off len m fuel i hits s1 = .ok r1 →
+      strat2Loop ex bytes qs J off len m fuel i hits s2 = .ok r2 → r1.Agree r2 := by
+  intro fuel
+  induction fuel with
+  | zero => intro i hits s1 s2 r1 r2 h1 _; simp only [strat2Loop] at h1; cases h1
+  | succ fuel ih =>
+    intro i hits s1 s2 r1 r2 h1 h2
+    simp only [strat2Loop] at h1 h2
+    by_cases hin : i + qs.length ≤ len
+    · rw [if_pos hin] at h1 h2
+      by_cases hcond : qs.getD (qs.length - 1) 0 = byteAt bytes (off + i + qs.length - 1) ∧ winEq bytes (off + i) qs = true
+      · rw [if_pos hcond] at h1 h2
+        obtain ⟨a1, ha1, h1⟩ := bind_eq_ok h1
+        obtain ⟨a2, ha2, h2⟩ := bind_eq_ok h2
+        rw [ha1] at ha2; cases ha2
+        obtain ⟨p1, hp1, h1⟩ := bind_eq_ok h1
+        obtain ⟨p2, hp2, h2⟩ := bind_eq_ok h2
+        obtain ⟨b, t1, t2, e1, e2⟩ := hI a1 s1 s2
+        rw [e1] at hp1; rw [e2] at hp2; cases hp1; cases hp2
+        cases b with
+        | true =>
+          rw [if_pos rfl] at h1 h2
+          obtain ⟨c1, hc1, h1⟩ := bind_eq_ok h1
+          obtain ⟨c2, hc2, h2⟩ := bind_eq_ok h2
+          rw [hc1] at hc2; cases hc2
+          cases h1; cases h2; exact ⟨rfl, rfl, rfl⟩
+        | false =>
+          rw [if_neg (by simp)] at h1 h2
+          exact ih _ _ _ _ _ _ h1 h2
+      · rw [if_neg hcond] at h1 h2
+        exact ih _ _ _ _ _ _ h1 h2
+    · rw [if_neg hin] at h1 h2
+      obtain ⟨a1, ha1, h1⟩ := bind_eq_ok h1
+      obtain ⟨a2, ha2, h2⟩ := bind_eq_ok h2
+      rw [ha1] at ha2; cases ha2
+      cases h1; cases h2; exact ⟨rfl, rfl, rfl⟩
+
+theorem strategy_agree {ex : Interp} (hI : ex.Indep) (bytes : Bytes) (qs : List Nat) (off len : Nat) (m : MSt)
+    (s1 s2 : Array Nat) (r1 r2 : Res) (h1 : strategy ex bytes qs off len m s1 = .ok r1)
+    (h2 : strategy ex bytes qs off len m s2 = .ok r2) : r1.Agree r2 := by
+  unfold strategy at h1 h2
+  by_cases h0 : qs.length = 0
+  · rw [if_pos h0] at h1 h2
+    unfold strategy0 at h1 h2
+    obtain ⟨a1, ha1, h1⟩ := bind_eq_ok h1
+    obtain ⟨a2, ha2, h2⟩ := bind_eq_ok h2
+    rw [ha1] at ha2; cases ha2
+    exact strat0Loop_agree hI _ _ _ _ _ _ _ h1 h2
+  · rw [if_neg h0] at h1 h2
+    by_cases h4 : qs.length < 4
+    · rw [if_pos h4] at h1 h2
+      cases qs with
+      | nil => simp only [strategy1] at h1; cases h1
+      | cons byte rest =>
+        simp only [strategy1] at h1 h2
+        exact strat1Loop_agree hI _ _ _ _ _ _ _ _ _ _ _ _ h1 h2
+    · rw [if_neg h4] at h1 h2
+      unfold strategy2 at h1 h2
+      exact strat2Loop_agree hI _ _ _ _ _ _ _ _ _ _ _ _ _ h1 h2
+
+theorem nextSection_agree {ex : Interp} (hI : ex.Indep) (bytes : Bytes) (qs : List Nat) (base off len : Nat)
+    (m : MSt) (s1 s2 : Array Nat) (r1 r2 : Res)
+    (h1 : nextSection ex bytes qs base off len m s1 = .ok r1)
+    (h2 : nextSection ex bytes qs base off len m s2 = .ok r2) : r1.Agree r2 := by
+  unfold nextSection at h1 h2
+  dsimp only at h1 h2
+  split at h1
+  · cases h1
+  · split at h2
+    · cases h2
+    · split at h1
+      · split at h2
+        · cases h1; cases h2; exact ⟨rfl, rfl, rfl⟩
+        · omega
+      · split at h2
+        · omega
+        · split at h1
+          · split at h2
+            · exact strategy_agree hI _ _ _ _ _ _ _ _ _ h1 h2
+            · omega
+          · cases h1
+
+theorem nextFile_agree {ex : Interp} (hI : ex.Indep) (bytes : Bytes) (qs : List Nat) :
+    ∀ (secs : List Pe.Sec) (m : MSt) s1 s2 r1 r2, nextFile ex bytes qs secs m s1 = .ok r1 →
+      nextFile ex bytes qs secs m s2 = .ok r2 → r1.Agree r2 := by
+  intro secs
+  induction secs with
+  | nil => intro m s1 s2 r1 r2 h1 h2; simp only [nextFile] at h1 h2; cases h1; cases h2; exact ⟨rfl, rfl, rfl⟩
+  | cons s rest ih =>
+    intro m s1 s2 r1 r2 h1 h2
+    simp only [nextFile] at h1 h2
+    by_cases hov : s.va < m.stop ∧ wadd32 s.va s.vs > m.start
+    · rw [if_pos hov] at h1 h2
+      by_cases hraw : s.prd ≤ wadd32 s.prd s.rs ∧ wadd32 s.prd s.rs ≤ bytes.size
+      · rw [if_pos hraw] at h1 h2
+        obtain ⟨q1, hq1, h1⟩ := bind_eq_ok h1
+        obtain ⟨q2, hq2, h2⟩ := bind_eq_ok h2
+        obtain ⟨a1, a2, a3⟩ := nextSection_agree hI _ _ _ _ _ _ _ _ _ _ hq1 hq2
+        cases hf : q1.found with
+        | true =>
+          rw [hf, if_pos rfl] at h1
+          rw [← a1, hf, if_pos rfl] at h2
+          cases h1; cases h2; exact ⟨a1, a2, a3⟩
+        | false =>
+          rw [hf, if_neg (by simp)] at h1
+          rw [← a1, hf, if_neg (by simp), ← a3] at h2
+          exact ih _ _ _ _ _ h1 h2
+      · rw [if_neg hraw] at h1 h2; exact ih _ _ _ _ _ h1 h2
+    · rw [if_neg hov] at h1 h2; exact ih _ _ _ _ _ h1 h2
+
+/-- **`next` is deterministic up to the save array.** -/
+theorem nextWith_agree {ex : Interp} (hI : ex.Indep) (v : Pe.View) (qs : List Nat) (m : MSt)
+    (s1 s2 : Array Nat) (r1 r2 : Res) (h1 : nextWith ex v qs m s1 = .ok r1)
+    (h2 : nextWith ex v qs m s2 = .ok r2) : r1.Agree r2 := by
+  unfold nextWith at h1 h2
+  cases hk : v.kind with
+  | file => rw [hk] at h1 h2; exact nextFile_agree hI _ _ _ _ _ _ _ _ h1 h2
+  | view => rw [hk] at h1 h2; exact nextSection_agree hI _ _ _ _ _ _ _ _ _ _ h1 h2
+
+theorem interp_indep (v : Pe.View) (hsz : v.b.size < 4294967296) (pat : List Atom)
+    (hnr : pat.all noRead = true) : (interp v pat).Indep := by
+  intro c s1 s2
+  obtain ⟨b, t1, h1⟩ := interp_total v hsz pat c s1
+  obtain ⟨t2, h2⟩ := run_save_indep (ofView v) pat hnr c s1 s2 t1 b h1
+  exact ⟨b, t1, t2, h1, h2⟩
+
+/-- **`finds` against the scan loop**, for an abstract `next` that returns normally (`hnx`), is
+deterministic up to the save array (`hag`) and reports ascending positions: `finds` answers `true`
+exactly when the loop `while next(save) { record }` (at least two calls allowed) records exactly one
+match, and the save array it hands back is the one recorded with that match. -/
+theorem findsWith_iff_scanAll {nx : MSt → Array Nat → Out Res} (hi : Nat)
+    (hnx : ∀ m save, m.stop = hi → ∃ r, nx m save = .ok r ∧ r.m.stop = hi)
+    (hag : ∀ m s1 s2 r1 r2, nx m s1 = .ok r1 → nx m s2 = .ok r2 → r1.Agree r2)
+    (m : MSt) (hm : m.stop = hi) (save : Array Nat) (n : Nat) :
+    ∃ b s, findsWith nx m save = .ok (b, s) ∧
+      ∀ a, scanAll nx (n + 2) m save = .ok a →
+        (b = true ↔ a.hits.length = 1) ∧ (b = true → ∃ c, a.hits = [(c, s)]) := by
+  obtain ⟨r1, hr1, hs1⟩ := hnx m save hm
+  unfold findsWith
+  simp only [hr1, bind_ok', scanAll]
+  cases hf1 : r1.found with
+  | false =>
+    refine ⟨false, r1.save, by simp, ?_⟩
+    intro a ha
+    rw [if_neg (by simp)] at ha
+    cases ha
+    exact ⟨by simp, fun h => by cases h⟩
+  | true =>
+    obtain ⟨r2, hr2, _⟩ := hnx r1.m #[] hs1
+    obtain ⟨r2', hr2', _⟩ := hnx r1.m r1.save hs1
+    have hfa : r2.found = r2'.found := (hag _ _ _ _ _ hr2 hr2').1
+    refine ⟨!r2.found, r1.save, by simp [hr2], ?_⟩
+    intro a ha
+    rw [if_pos rfl] at ha
+    simp only [hr2', bind_ok'] at ha
+    cases hf2 : r2'.found with
+    | false =>
+      rw [hf2, if_neg (by simp)] at ha
+      simp only [bind_ok', Out.ok.injEq] at ha
+      subst ha
+      rw [hfa, hf2]
+      exact ⟨by simp, fun _ => ⟨r1.pos, rfl⟩⟩
+    | true =>
+      rw [hf2, if_pos rfl] at ha
+      obtain ⟨a', ha', ha⟩ := bind_eq_ok ha
+      obtain ⟨a'', _, ha'⟩ := bind_eq_ok ha'
+      simp only [Out.ok.injEq] at ha ha'
+      subst ha
+      subst ha'
+      rw [hfa, hf2]
+      exact ⟨by simp, fun h => by cases h⟩
+
 end Pelite.Scan
